@@ -30,6 +30,12 @@ def handle(job):
           "eigh": rep.get("eigh", False), "diagonal_epsilon": job.get("diag_eps", 1e-10), "clip": (0.5 if cfg.get("clip") else None)}
   if rep.get("fd"):
     base["P"] = base["S"]
+  if rep.get("reset"):
+    # the behaviour was exported for beta2 = 1; the optimizer gets another value plus reset_preconditioner
+    if refds.dy(cfg["b2"]) != 1.0:
+      raise core.MachineryError("reset representation is only meant for beta2 = 1 behaviours")
+    base["reset"] = True
+    base["beta2"] = 0.75
   mism, worst = [], {"norm": 0.0, "cosine": 0.0, "graft_step": 0.0, "graft_closed_form": 0.0}
   try:
     import jax.numpy as jnp
